@@ -174,6 +174,9 @@ def run(run):
     run.floor('C04.b', 8)
     run.floor('C04.c', 100)
     run.floor('C04.d', 30)
+    from gen import static_units as _su
+    run.guard('configuration setters', _su.report, run, 'C04.e', _su.config_unit('C04.e'))      # the configured value survives every order of the setters
+    run.floor('C04.e', 1)
     run.explanation = (
         'Counted-loop rule on both substitution loops for limits {1,2,3,4,255} (and every witness machine), one guard round '
         'per iteration, acyclic call graph and a complete classification of the library\'s loops; the end state when the limit '
